@@ -12,6 +12,9 @@ CLAIMED = {
  "C02": ("reference-model monitor over hooked coin-tree snapshots before/after every batch of generated histories",
          "Every batch of thousands of generated histories (all transaction kinds, dependent members in every order, one hostile mutation) is checked against a map-based UTXO model: accepted => necessary validity conditions held and coin set = prior - inputs + outputs exactly; rejected => every observable component unchanged.",
          "Covers generated batches only; validity model checks necessary conditions (sufficiency is observed, not claimed); covenants outside the reference interpreter's domain give no claim.", "6/C02"),
+ "C04": ("differential monitor of apply_tx acceptance against the reference interpreter evaluated per input on the reference environment heap",
+         "Tens of thousands of (fabricated state, transaction) cases in which only authorisation is in question: 1-8 inputs from 13 covenant families (standard signatures with wrong key/slot/message/truncation/tampering, hash-, time-, index-, value-, data-, height-, parent-index-, output-count-bound, self-hash, random programs), inputs sharing a covenant hash with different environments, missing and corrupted covenants; accepted => every input authorised; for standard signature covenants all authorised => accepted.",
+         "Sufficiency is claimed for the standard signature covenants only; covenants leaving the reference interpreter's domain give no claim.", "6/C04"),
  "C05": ("exact-arithmetic monitor of fee_pool/tips (hooked snapshots) per batch and around the proposer phase, plus threshold probes at min-1 / min / min+k found by fixpoint",
          "Random histories at multipliers {0,1,2,100,10^6,2^40,2^64,2^100} and thousands of threshold probes (0-8 inputs, 1-60 outputs, extra covenants of every weight class incl. heavy loops and undecodable bytes): accepted => fee >= floor(refweight*mult/65536); below => rejected; pool += sum(min), tips += sum(fee-min) exactly; reward coin = pool>>16 + tips to the destination at the current height with pool/tips debited exactly; no action => nothing moves.",
          "Reference weight uses the reference covenant weight (cross-checked against the implementation by C12); multipliers above 2^100 and saturating pools are exercised by C09 only.", "6/C05"),
